@@ -7,6 +7,7 @@ objects.
 import asyncio
 import contextlib
 import logging
+import struct
 from collections import deque
 from collections.abc import Awaitable, Callable, Coroutine, Iterable
 from dataclasses import dataclass
@@ -447,15 +448,17 @@ class AirTouchSocket(Generic[comms.Hdr]):
                 entry = self._message_queue.popleft()
 
                 if self._loop.time() < entry.expiry:
-                    await self._write(entry.header, entry.message)
+                    try:
+                        await self._write(entry.header, entry.message)
+                    except (ValueError, NotImplementedError, struct.error):
+                        # This indicates an error encoding this message.
+                        # We shouldn't retry this message, but the connection
+                        # doesn't need to be reset.
+                        _LOGGER.exception(
+                            "Encoding error for message %s", entry.message
+                        )
                 else:
                     self._log_dropped_message(entry, "expired")
-
-        except (ValueError, NotImplementedError):
-            # This indicates an error encoding this message.
-            # We shouldn't retry this message, but the connection doesn't need
-            # to be reset.
-            _LOGGER.exception("Encoding error for message %s", entry.message)
 
         except OSError as ex:
             # Connection errors may turn up here rather than in the read method.
